@@ -161,7 +161,7 @@ TARGETED = [
     ("tl", [], "L0,R0,U0,L0,R0,D0,U0|K,Z|K,Z|L0,R0,D0,U0"),
     ("acc", [0, 1, 2, 3], "C0,L0,R0,D0,U0,Z|C1,L1,R1,D1,U1,K|C2,L2,R2,D2,U2,Z|C3,K,Z,L3,R3,D3,U3|K,Z,Z"),
     # slot index beyond the first block of the slot vector (block = 1024)
-    ("acc", [0, 1], "B1023,C0,B3,L0,R0,D0,D0,U0|K,Z,C1,L1,R1,D1,U1,Z|K,Z"),
+    ("acc", [0, 1], "B1024,C0,B3,L0,R0,D0,D0,U0|K,Z,C1,L1,R1,D1,U1,Z|K,Z"),
 ]
 
 # release() of an Accessor whose region is still open (see KNOWN_FINDINGS / Properties_C09 c09_release_while_locked_refuted)
